@@ -8,9 +8,14 @@
 (*   dp   |-> << [k |-> "mps"|"sn", ctor |-> "bare"|"model"], ... >>,      *)
 (*   ev   |-> << event, ... >>]                                            *)
 (*  event = [a   |-> "init"|"temp"|"hard"|"gumbel"|"disable"|"train"|      *)
-(*                   "eval"|"fwd"|"alpha"|"summary"|"export",              *)
+(*                   "eval"|"fwd"|"alpha"|"load"|"summary"|"export",       *)
 (*           v   |-> argument (init: [hd, gum, dis, t4, smp]; temp: T x    *)
-(*                   10^4; hard/gumbel/disable: BOOLEAN; otherwise 0),     *)
+(*                   10^4; hard/gumbel/disable: BOOLEAN; fwd: grad mode    *)
+(*                   (TRUE enabled, FALSE under torch.no_grad());          *)
+(*                   alpha: [wk |-> "copy"|"data"|"optim", al |-> the      *)
+(*                   coefficients written, per decision point];            *)
+(*                   load: the checkpoint [al, th, t4 per decision point]; *)
+(*                   otherwise 0),                                         *)
 (*           o   |-> << per decision point, read off the real object       *)
 (*                   AFTER the call:                                       *)
 (*                   [tr, hd |-> BOOLEAN, sp |-> "sm"|"gs"|"none",         *)
@@ -37,7 +42,7 @@ Traces == JsonDeserialize(IOEnv.TRACE_FILE)
 
 VARIABLES tid, verdict
 
-ActionNames == {"init", "temp", "hard", "gumbel", "disable", "train", "eval", "fwd", "alpha", "summary", "export"}
+ActionNames == {"init", "temp", "hard", "gumbel", "disable", "train", "eval", "fwd", "alpha", "load", "summary", "export"}
 
 \* property domain: T in [0.05, 20], pairwise gaps >= 0.05 (x 10^4, one unit of rounding slack)
 TMin == 500
@@ -63,9 +68,12 @@ EventOK(t, i) ==
     /\ Len(e.o) = Len(t.dp)
     /\ Len(e.rv) = Len(t.dp)
     /\ \A d \in DOMAIN e.o : ObsOK(e.o[d])
-    /\ \A d \in DOMAIN e.o : (e.a \in {"init", "alpha"} \/ e.o[d].al # t.ev[i - 1].o[d].al) => AlphaOK(e.o[d])
+    /\ \A d \in DOMAIN e.o : (e.a \in {"init", "alpha", "load"} \/ e.o[d].al # t.ev[i - 1].o[d].al) => AlphaOK(e.o[d])
     /\ (i > 1 => \A d \in DOMAIN e.o : Len(e.o[d].al) = Len(t.ev[i - 1].o[d].al))
     /\ \A k \in DOMAIN e.rep : e.rep[k].dp \in DOMAIN t.dp
+    /\ (e.a = "fwd" => e.v \in BOOLEAN)
+    /\ (e.a = "alpha" => e.v.wk \in WriteKinds /\ Len(e.v.al) = Len(t.dp))
+    /\ (e.a = "load" => Len(e.v.al) = Len(t.dp) /\ Len(e.v.th) = Len(t.dp) /\ Len(e.v.t4) = Len(t.dp))
 
 ----------------------------------------------------------------------------
 (***************************************************************************)
@@ -82,50 +90,59 @@ EventOK(t, i) ==
 (* have the pinned or the repaired variant of each mechanism               *)
 (* independently, so any variant may agree.                                *)
 (***************************************************************************)
-Variants == <<[impl |-> "asis", opt |-> "pinned"], [impl |-> "asis", opt |-> "fixed"],
-              [impl |-> "ref",  opt |-> "pinned"], [impl |-> "ref",  opt |-> "fixed"]>>
+\* (sampler: as implemented / reference) x (summary() re-samples) x (export() leaves its sample) x
+\* (update_softmax_options: repaired / pinned); the current tree comes first
+Variants == [j \in 1..16 |->
+                LET b == j - 1 IN
+                [im  |-> Impl(IF (b \div 8) % 2 = 0 THEN "asis" ELSE "ref", (b \div 4) % 2 = 1, (b \div 2) % 2 = 1),
+                 opt |-> IF b % 2 = 0 THEN "fixed" ELSE "pinned"]]
 
-Keep == [c |-> "keep", at |-> 0, oh |-> FALSE]
+Keep   == [c |-> "keep",   at |-> 0, oh |-> FALSE]     \* literally the previous vector
+Loaded == [c |-> "loaded", at |-> 0, oh |-> FALSE]     \* literally the vector stored in the checkpoint
 
 \* model state rebuilt from an observation p and the history h
 Abstract(p, h) ==
     [rank |-> p.al, hard |-> p.hd, gum |-> h.gum, dis |-> h.dis, sampler |-> p.sp, training |-> p.tr, temp |-> p.t4,
      \* a combiner that has never sampled keeps theta_alpha aliased to alpha: nothing is predicted for it
      theta |-> [c \in DOMAIN p.al |-> IF h.smp THEN Keep ELSE Unsampled],
-     fresh |-> FALSE, sampled |-> h.smp]
+     fresh |-> FALSE, sampled |-> h.smp, lastinf |-> FALSE, skip |-> FALSE]
 
-StepOne(k, ctor, var, s, e, o) ==
-    CASE e.a = "init"    -> InitState(k, var.impl, var.opt, ctor, o.al, e.v.hd, e.v.gum, e.v.dis, e.v.t4)
-      [] e.a = "temp"    -> DoOption(k, var.opt, s, "temp", e.v)
-      [] e.a = "hard"    -> DoOption(k, var.opt, s, "hard", e.v)
-      [] e.a = "gumbel"  -> DoOption(k, var.opt, s, "gumbel", e.v)
-      [] e.a = "disable" -> DoOption(k, var.opt, s, "disable", e.v)
+StepOne(k, ctor, var, s, e, o, d) ==
+    CASE e.a = "init"    -> InitState(k, var.im, var.opt, ctor, o.al, e.v.hd, e.v.gum, e.v.dis, e.v.t4)
+      [] e.a = "temp"    -> DoOption(k, var.im, var.opt, s, "temp", e.v)
+      [] e.a = "hard"    -> DoOption(k, var.im, var.opt, s, "hard", e.v)
+      [] e.a = "gumbel"  -> DoOption(k, var.im, var.opt, s, "gumbel", e.v)
+      [] e.a = "disable" -> DoOption(k, var.im, var.opt, s, "disable", e.v)
       [] e.a = "train"   -> DoMode(s, TRUE)
       [] e.a = "eval"    -> DoMode(s, FALSE)
-      [] e.a = "fwd"     -> DoForward(k, var.impl, s)
-      [] e.a = "alpha"   -> DoSetAlpha(s, o.al)
-      [] e.a = "summary" -> DoSummary(k, var.impl, s)
-      [] e.a = "export"  -> DoExport(k, var.impl, ctor, s)
+      [] e.a = "fwd"     -> DoForward(k, var.im, s, e.v)
+      [] e.a = "alpha"   -> DoSetAlpha(var.im, s, e.v.al[d], e.v.wk)
+      [] e.a = "load"    -> DoLoad(k, var.im, s, e.v.al[d], [c \in DOMAIN e.v.al[d] |-> Loaded], e.v.t4[d])
+      [] e.a = "summary" -> DoSummary(k, var.im, s)
+      [] e.a = "export"  -> DoExport(k, var.im, ctor, s)
       [] OTHER           -> s
 
-\* does the observation o (previous observation p) agree with the model state s after the event
-Agrees(o, p, s) ==
+\* does the observation o (previous observation p, checkpoint vectors ck) agree with the model state s after the event
+Agrees(o, p, ck, s) ==
     /\ o.tr = s.training /\ o.hd = s.hard /\ o.sp = s.sampler /\ o.t4 = s.temp
     /\ o.al = s.rank
     /\ \A c \in DOMAIN o.th :
-          IF s.theta[c] = Keep THEN o.th[c] = p.th[c] ELSE Satisfies(o.th[c], s.theta[c])
+          CASE s.theta[c] = Keep   -> o.th[c] = p.th[c]
+            [] s.theta[c] = Loaded -> c \in DOMAIN ck /\ o.th[c] = ck[c]
+            [] OTHER               -> Satisfies(o.th[c], s.theta[c])
 
 Predicted(t, i, d, hs, var) ==
     LET e == t.ev[i]
         o == e.o[d]
         p == IF i = 1 THEN o ELSE t.ev[i - 1].o[d]
-    IN  StepOne(t.dp[d].k, t.dp[d].ctor, var, IF i = 1 THEN <<>> ELSE Abstract(p, hs[d]), e, o)
+    IN  StepOne(t.dp[d].k, t.dp[d].ctor, var, IF i = 1 THEN <<>> ELSE Abstract(p, hs[d]), e, o, d)
 
 DriftOf(t, i, hs) ==
     LET e   == t.ev[i]
         bad == {d \in DOMAIN e.o :
                    \A j \in DOMAIN Variants :
-                       ~Agrees(e.o[d], IF i = 1 THEN e.o[d] ELSE t.ev[i - 1].o[d], Predicted(t, i, d, hs, Variants[j]))}
+                       ~Agrees(e.o[d], IF i = 1 THEN e.o[d] ELSE t.ev[i - 1].o[d],
+                               IF e.a = "load" THEN e.v.th[d] ELSE <<>>, Predicted(t, i, d, hs, Variants[j]))}
     IN  IF bad # {}
         THEN LET d == CHOOSE x \in bad : \A y \in bad : x <= y
                  m == Predicted(t, i, d, hs, Variants[1])
@@ -149,6 +166,7 @@ HistAfter(t, i, hs) ==
                   dis |-> IF e.a = "disable" /\ k = "mps" THEN e.v ELSE hs[d].dis,
                   smp |-> \/ hs[d].smp
                           \/ e.a = "fwd" /\ o.sp # "none"
+                          \/ e.a = "load" /\ k = "mps"
                           \/ e.a \in {"summary", "export"} /\ o.th # t.ev[i - 1].o[d].th]]
 
 ----------------------------------------------------------------------------
